@@ -82,6 +82,7 @@ mkarraytype(struct type *base, enum typequal qual, unsigned long long len)
 	t->base = base;
 	t->qual = qual;
 	t->u.array.length = NULL;
+	t->u.array.size = NULL;
 	t->u.array.ptrqual = QUALNONE;
 	t->incomplete = !len;
 	if (t->base) {
